@@ -10,7 +10,7 @@ import (
 
 // seqNo is an arbitrary sequence number below 10^seq_digits (every digit count is a path;
 // the thorough tier covers the whole uint64 range).
-func seqNo(label string) uint64 {
+func zzvSeqNo(label string) uint64 {
 	d := zz.Bound("seq_digits", 7)
 	n := zz.NondetU64(label)
 	if d < 20 {
@@ -23,7 +23,7 @@ func seqNo(label string) uint64 {
 	return n
 }
 
-func validAbbrev(label string) string {
+func zzvValidAbbrev(label string) string {
 	n := 1 + zz.NondetChoice(label+".len", 3)
 	s := zz.NondetString(label, n)
 	zz.Assume(ValidateCreditTypeAbbreviation(s) == nil)
@@ -32,8 +32,8 @@ func validAbbrev(label string) string {
 
 // Class ids: well-formed, accepted by the validator, and the abbreviation is recovered.
 func VerifHarness_C14_ClassID() {
-	abbrev := validAbbrev("abbrev")
-	seq := seqNo("seq")
+	abbrev := zzvValidAbbrev("abbrev")
+	seq := zzvSeqNo("seq")
 	id := FormatClassID(abbrev, seq)
 	zz.Assert(ValidateClassID(id) == nil, "C14 a formatted class id is accepted by ValidateClassID")
 	zz.Assert(zz.StrEq(GetCreditTypeAbbrevFromClassID(id), abbrev), "C14 the credit type abbreviation is recovered from a class id")
@@ -42,8 +42,8 @@ func VerifHarness_C14_ClassID() {
 
 // Project ids: accepted by the validator, class id recovered.
 func VerifHarness_C14_ProjectID() {
-	classID := FormatClassID(validAbbrev("abbrev"), seqNo("classSeq"))
-	seq := seqNo("projectSeq")
+	classID := FormatClassID(zzvValidAbbrev("abbrev"), zzvSeqNo("classSeq"))
+	seq := zzvSeqNo("projectSeq")
 	id := FormatProjectID(classID, seq)
 	zz.Assert(ValidateProjectID(id) == nil, "C14 a formatted project id is accepted by ValidateProjectID")
 	zz.Assert(zz.StrEq(GetClassIDFromProjectID(id), classID), "C14 the class id is recovered from a project id")
@@ -52,12 +52,12 @@ func VerifHarness_C14_ProjectID() {
 
 // Batch denoms: accepted by the validator, class and project ids recovered.
 func VerifHarness_C14_BatchDenom() {
-	classID := FormatClassID(validAbbrev("abbrev"), seqNo("classSeq"))
-	projectID := FormatProjectID(classID, seqNo("projectSeq"))
+	classID := FormatClassID(zzvValidAbbrev("abbrev"), zzvSeqNo("classSeq"))
+	projectID := FormatProjectID(classID, zzvSeqNo("projectSeq"))
 	var start, end time.Time
 	zz.NondetInto("start", &start)
 	zz.NondetInto("end", &end)
-	denom, err := FormatBatchDenom(projectID, seqNo("batchSeq"), &start, &end)
+	denom, err := FormatBatchDenom(projectID, zzvSeqNo("batchSeq"), &start, &end)
 	zz.Assert(err == nil, "C14 FormatBatchDenom succeeds")
 	zz.Assert(ValidateBatchDenom(denom) == nil, "C14 a formatted batch denom is accepted by ValidateBatchDenom")
 	zz.Assert(zz.StrEq(GetClassIDFromBatchDenom(denom), classID), "C14 the class id is recovered from a batch denom")
@@ -67,8 +67,8 @@ func VerifHarness_C14_BatchDenom() {
 
 // Formatters are injective: different (scope, sequence) pairs give different ids.
 func VerifHarness_C14_InjectiveClassID() {
-	a1, a2 := validAbbrev("a1"), validAbbrev("a2")
-	n1, n2 := seqNo("n1"), seqNo("n2")
+	a1, a2 := zzvValidAbbrev("a1"), zzvValidAbbrev("a2")
+	n1, n2 := zzvSeqNo("n1"), zzvSeqNo("n2")
 	zz.Assert(zz.Implies(zz.StrEq(FormatClassID(a1, n1), FormatClassID(a2, n2)), zz.And(zz.StrEq(a1, a2), n1 == n2)),
 		"C14 class ids are unique per (credit type, sequence number)")
 	zz.Reach("injective class id")
@@ -76,9 +76,9 @@ func VerifHarness_C14_InjectiveClassID() {
 
 func VerifHarness_C14_InjectiveProjectID() {
 	// two validated class ids of arbitrary content
-	c1 := FormatClassID(validAbbrev("a1"), seqNo("c1"))
-	c2 := FormatClassID(validAbbrev("a2"), seqNo("c2"))
-	n1, n2 := seqNo("n1"), seqNo("n2")
+	c1 := FormatClassID(zzvValidAbbrev("a1"), zzvSeqNo("c1"))
+	c2 := FormatClassID(zzvValidAbbrev("a2"), zzvSeqNo("c2"))
+	n1, n2 := zzvSeqNo("n1"), zzvSeqNo("n2")
 	zz.Assert(zz.Implies(zz.StrEq(FormatProjectID(c1, n1), FormatProjectID(c2, n2)), zz.And(zz.StrEq(c1, c2), n1 == n2)),
 		"C14 project ids are unique per (class, sequence number)")
 	zz.Reach("injective project id")
